@@ -14,7 +14,7 @@ for C in mod.ALL:
     try:
         res, info = c.verify(idx)
     except Exception as e:
-        import traceback; print(traceback.format_exc()[-700:])
+        import traceback; print(traceback.format_exc().strip().splitlines()[-1][:300])
         print('ERROR', C.__name__, e)
         continue
     bad = [r for r in res if r.status != 'proved']
